@@ -52,21 +52,24 @@ for k in json.loads((V / "known_findings.json").read_text()):
     what = re.sub(r"^fixed: property=\S+ \S+ ", "", what)
     out.append(f"| {k['property']} | {k['rule']} | {k['status']} | `{ref[:90]}` | {what[:300]} |")
 out.append("")
-out.append("## Appendix H — violations reported by the independent hunters (round 3), disposition on the current tree (generated from reported/status.json)\n")
-out.append("Each script is archived unchanged under `reported/`; `exit` is its exit status against /repo at the time "
-           "`reported/status.json` was last refreshed (0 = the behaviour it demonstrates is gone). These scripts *run* the library; they are "
-           "not part of any check and decide nothing - they are the cross-reference against which the static rules were extended.\n")
-rep = json.loads((V / "reported" / "status.json").read_text())
-from collections import Counter
-cnt = Counter((r["property"], r["exit_on_head"] == 0) for r in rep)
-out.append("| property | reported | repaired | open |\n|---|---|---|---|")
-for p in sorted({r["property"] for r in rep}):
-    out.append(f"| {p} | {cnt[(p, True)] + cnt[(p, False)]} | {cnt[(p, True)]} | {cnt[(p, False)]} |")
-out.append("")
-out.append("| script | exit | disposition |\n|---|---|---|")
-for r in rep:
-    out.append(f"| {r['script']} | {r['exit_on_head']} | {r['disposition'].replace('|', '/')} |")
-out.append("")
+for label, rdir, rnd in (("H", "reported", 3), ("I", "reported4", 4)):
+    if not (V / rdir / "status.json").exists():
+        continue
+    out.append(f"## Appendix {label} — violations reported by the independent hunters (round {rnd}), disposition on the current tree (generated from {rdir}/status.json)\n")
+    out.append(f"Each script is archived unchanged under `{rdir}/`; `exit` is its exit status against /repo at the time "
+               f"`{rdir}/status.json` was last refreshed (0 = the behaviour it demonstrates is gone). These scripts *run* the library; they are "
+               "not part of any check and decide nothing - they are the cross-reference against which the static rules were extended.\n")
+    rep = json.loads((V / rdir / "status.json").read_text())
+    from collections import Counter
+    cnt = Counter((r["property"], r["exit_on_head"] == 0) for r in rep)
+    out.append("| property | reported | repaired | open |\n|---|---|---|---|")
+    for p in sorted({r["property"] for r in rep}):
+        out.append(f"| {p} | {cnt[(p, True)] + cnt[(p, False)]} | {cnt[(p, True)]} | {cnt[(p, False)]} |")
+    out.append("")
+    out.append("| script | exit | disposition |\n|---|---|---|")
+    for r in rep:
+        out.append(f"| {r['script']} | {r['exit_on_head']} | {r['disposition'].replace('|', '/')} |")
+    out.append("")
 text = "\n".join(out)
 design = (V / "DESIGN.md").read_text()
 begin, end = "<!-- BEGIN GENERATED -->", "<!-- END GENERATED -->"
